@@ -290,13 +290,21 @@ func (c *Client) disconnected() bool {
 }
 
 func (c *Client) closeAndDelSession() {
-	c.broker.sessMgr.delLocal(c.info.cid)
-	if c.session.cleanSession() {
-		c.broker.sessMgr.delDB(c.info.cid)
-	}
+	// The session and the subscriptions are registered under the client id. When
+	// another connection has taken the id over, they belong to that connection
+	// and must survive the teardown of this one. The broker lock makes the check
+	// atomic with the registration of a new connection in Broker.handleConn.
+	c.broker.Lock()
+	if cur, ok := c.broker.clients[c.info.cid]; !ok || cur == c {
+		c.broker.sessMgr.delLocal(c.info.cid)
+		if c.session.cleanSession() {
+			c.broker.sessMgr.delDB(c.info.cid)
+		}
 
-	topics, _, _ := c.session.allSubscribes()
-	c.broker.topicMgr.unsubscribe(topics, c.info.cid)
+		topics, _, _ := c.session.allSubscribes()
+		c.broker.topicMgr.unsubscribe(topics, c.info.cid)
+	}
+	c.broker.Unlock()
 
 	c.close()
 }
